@@ -27,6 +27,7 @@ from ..hilbertspace.operators import ReducedDensityMatrix, DensityMatrix
 from .dmevolution import ReducedDensityMatrixEvolution
 from ...core.matrixdata import MatrixData
 from ...core.managers import Manager
+from ...core.managers import energy_units
 from ...spectroscopy.labsetup import LabSetup
 
 import quantarhei as qr
@@ -256,6 +257,17 @@ class ReducedDensityMatrixPropagator(MatrixData, Saveable):
         Traceback (most recent call last):
             ...
         Exception: First argument has be of the ReducedDensityMatrix type
+        """
+        # the propagation works with numbers in internal units, whatever
+        # units are current for the caller
+        with energy_units("int"):
+            return self._propagate(rhoi, method=method, mdata=mdata,
+                                   Nref=Nref)
+
+
+    def _propagate(self, rhoi, method="short-exp", mdata=None, Nref=1):
+        """Propagation proper; propagate() calls it in internal units
+        
         """
         
         if Nref > 1:
